@@ -434,7 +434,7 @@ func (e *env) applyOps(tr *trie.Trie, ops []op) error {
 		case e.r.Intn(2) == 0:
 			err = tr.Delete(e.key(o.k))
 		default:
-			err = tr.Update(e.key(o.k), nil)
+			err = tr.Update(e.key(o.k), [][]byte{nil, {}}[e.r.Intn(2)])
 		}
 		if err != nil {
 			return err
